@@ -121,19 +121,19 @@ theorem readBlockContents_clean_eq (w : World) (file : Nat) (img : Bytes) (h : B
     readBlockContents file h w =
       ({ w with sched := [],
                 readLog := (file, h.offset, h.size + Consts.tableBlockCksumLen + Consts.tableBlockCompressLen) :: w.readLog,
-                allocs := (h.size + Consts.tableBlockCksumLen + Consts.tableBlockCompressLen) :: w.allocs },
+                allocs := blockAllocs img h ++ w.allocs },
        blockAt img h) := by
   have hr := readBytes_clean_eq file
     ⟨h.offset, h.size + Consts.tableBlockCksumLen + Consts.tableBlockCompressLen⟩ w hc.sched
   rw [readBlockContents_eq, hr, hc.file]
-  rfl
+  simp only [blockAllocs, blockAt, List.append_assoc, List.cons_append, List.nil_append]
 
 theorem readTableBlock_clean_eq (w : World) (file : Nat) (img : Bytes) (h : BlockHandle)
     (hc : CleanWorld w file img) :
     readTableBlock file h w =
       ({ w with sched := [],
                 readLog := (file, h.offset, h.size + Consts.tableBlockCksumLen + Consts.tableBlockCompressLen) :: w.readLog,
-                allocs := (h.size + Consts.tableBlockCksumLen + Consts.tableBlockCompressLen) :: w.allocs },
+                allocs := blockAllocs img h ++ w.allocs },
        tableBlockAt img h) := by
   have hr := readBlockContents_clean_eq w file img h hc
   unfold readTableBlock tableBlockAt
@@ -170,7 +170,7 @@ theorem readBlock_world (cmp : Cmp) (t : TableImg) (hwf : t.WF cmp) (tb : Table)
          ({ w with sched := [],
                    readLog := (tb.file, d.handle.offset,
                      d.handle.size + Consts.tableBlockCksumLen + Consts.tableBlockCompressLen) :: w.readLog,
-                   allocs := (d.handle.size + Consts.tableBlockCksumLen + Consts.tableBlockCompressLen) :: w.allocs,
+                   allocs := blockAllocs t.img d.handle ++ w.allocs,
                    cache := (w.cache.get (tb.cacheId, d.handle.offset % 2 ^ 64)).1.insert
                      (tb.cacheId, d.handle.offset % 2 ^ 64) d.blk.contents,
                    events := ⟨tb.cacheId, d.handle.offset, false⟩ :: w.events }, .ok d.blk.contents)) := by
